@@ -37,6 +37,12 @@ class S:
     num_steps: jax.Array
 
 
+def within_eps(a, b, eps):
+    """|a - b| <= eps up to the rounding of the loop's own comparison `t + eps < t1`
+    (the property says "up to the eps the caller passes"; one rounding of t + eps is not a violation)."""
+    return abs(a - b) <= eps * (1.0 + 1e-6) + 4.0 * math.ulp(max(abs(a), abs(b), 1e-300))
+
+
 class Livelock(RuntimeError):
     pass
 
@@ -190,6 +196,8 @@ class World:
             self.interps_since_accept = 0
             if abs(tnew - tgt) <= self.eps:
                 self.bump(self.probes, "step_end_within_eps_of_checkpoint")
+            if abs(abs(tnew - tgt) - self.eps) <= 1e-3 * self.eps:
+                self.bump(self.probes, "step_end_at_eps_boundary")
         else:
             self.last_rejected = (ptok, dt)
             self.rej_streak += 1
@@ -252,9 +260,9 @@ class World:
         if ftok != self.interp_from:
             self.v("I6", "interp_from is not the state the current subinterval starts from", got=ftok,
                    expected=self.interp_from)
-        if not (ft <= t + eps and t <= tt + eps):
+        if not (ft <= t + eps * (1 + 1e-6) + 4 * math.ulp(abs(t)) and t <= tt + eps * (1 + 1e-6) + 4 * math.ulp(abs(t))):
             self.v("I6", "interpolation time not between the two states", t=t, t_from=ft, t_to=tt)
-        if kind == 1 and abs(tt - t) > eps:
+        if kind == 1 and not within_eps(tt, t, eps):
             self.v("I6", "at-checkpoint branch although the step end is farther than eps from the checkpoint", t=t, t_to=tt)
         if kind == 0 and not tt > t:
             self.v("I6", "beyond-checkpoint branch although the step end is not beyond the checkpoint", t=t, t_to=tt)
@@ -287,7 +295,7 @@ class World:
             if len(ts) != len(sa):
                 self.v("I5", "number of reported times differs from the number requested", got=len(ts), want=len(sa))
             for i, (a, b) in enumerate(zip(ts, sa)):
-                if not abs(a - b) <= eps * (1 + 1e-9):
+                if not within_eps(a, b, eps):
                     self.v("I5", "reported time farther than eps from the requested time", i=i, got=a, want=b)
             if len(self.reported) != len(sa) - 1:
                 self.v("I8", "not exactly one interpolation per requested time", got=len(self.reported), want=len(sa) - 1)
@@ -299,7 +307,7 @@ class World:
                     self.v("I7", "reported step count differs from the number of accepted attempts", i=idx, got=ns,
                            want=acc)
         elif driver == "terminal":
-            if not abs(ts[-1] - sa[-1]) <= eps * (1 + 1e-9):
+            if not within_eps(ts[-1], sa[-1], eps):
                 self.v("I5", "terminal time farther than eps from t1", got=ts[-1], want=sa[-1])
             if self.reported and toks[-1] != self.reported[-1][1]:
                 self.v("I5", "terminal value is not the state returned by the final interpolation", got=toks[-1])
@@ -307,7 +315,7 @@ class World:
                 self.v("I7", "reported step count differs from the number of accepted attempts", got=nsteps[-1],
                        want=self.accepted)
         else:  # every_step
-            if not abs(ts[-1] - sa[-1]) <= eps * (1 + 1e-9):
+            if not within_eps(ts[-1], sa[-1], eps):
                 self.v("I5", "final reported time farther than eps from t1", got=ts[-1], want=sa[-1])
             if len(self.reported) != 1:
                 self.v("I8", "every-step run must interpolate exactly once (at t1)", got=len(self.reported))
